@@ -56,7 +56,7 @@ package cbor
 //@   flag tags binary_log
 //@   requires len(s) < 4611686018427387904
 //@   ensures prefix(res, dst) && headok(res, len(dst)) && mt(res, len(dst)) == 3 && argof(res, len(dst)) == uint64(len(s)) && len(res) == len(dst) + headlen(res, len(dst)) + len(s)
-//@   ensures forall k in 0..len(s): res[len(dst) + headlen(res, len(dst)) + k] == s[k]
+//@   ensures contentat(res, len(dst) + headlen(res, len(dst)), s)
 //@   ensures! emitsvalue(res, dst)
 
 //@ func (Encoder).AppendBytes(e, dst, s) res
@@ -66,7 +66,7 @@ package cbor
 //@   flag tags binary_log
 //@   requires len(s) < 4611686018427387904
 //@   ensures prefix(res, dst) && headok(res, len(dst)) && mt(res, len(dst)) == 2 && argof(res, len(dst)) == uint64(len(s)) && len(res) == len(dst) + headlen(res, len(dst)) + len(s)
-//@   ensures forall k in 0..len(s): res[len(dst) + headlen(res, len(dst)) + k] == s[k]
+//@   ensures contentat(res, len(dst) + headlen(res, len(dst)), s)
 //@   ensures! emitsvalue(res, dst)
 
 //@ func AppendEmbeddedJSON(dst, s) res
@@ -77,7 +77,7 @@ package cbor
 //@   requires len(s) < 4611686018427387904
 //@   ensures prefix(res, dst) && res[len(dst) + 0] == 217 && res[len(dst) + 1] == 1 && res[len(dst) + 2] == 6
 //@   ensures headok(res, len(dst) + 3) && mt(res, len(dst) + 3) == 2 && argof(res, len(dst) + 3) == uint64(len(s)) && len(res) == len(dst) + 3 + headlen(res, len(dst) + 3) + len(s)
-//@   ensures forall k in 0..len(s): res[len(dst) + 3 + headlen(res, len(dst) + 3) + k] == s[k]
+//@   ensures contentat(res, len(dst) + 3 + headlen(res, len(dst) + 3), s)
 //@   ensures! emitsvalue(res, dst)
 
 //@ func AppendEmbeddedCBOR(dst, s) res
@@ -88,7 +88,7 @@ package cbor
 //@   requires len(s) < 4611686018427387904
 //@   ensures prefix(res, dst) && res[len(dst) + 0] == 216 && res[len(dst) + 1] == 63
 //@   ensures headok(res, len(dst) + 2) && mt(res, len(dst) + 2) == 2 && argof(res, len(dst) + 2) == uint64(len(s)) && len(res) == len(dst) + 2 + headlen(res, len(dst) + 2) + len(s)
-//@   ensures forall k in 0..len(s): res[len(dst) + 2 + headlen(res, len(dst) + 2) + k] == s[k]
+//@   ensures contentat(res, len(dst) + 2 + headlen(res, len(dst) + 2), s)
 //@   ensures! emitsvalue(res, dst)
 
 //@ func (Encoder).AppendHex(e, dst, val) res
@@ -99,7 +99,7 @@ package cbor
 //@   requires len(val) < 4611686018427387904
 //@   ensures prefix(res, dst) && res[len(dst) + 0] == 217 && res[len(dst) + 1] == 1 && res[len(dst) + 2] == 7
 //@   ensures headok(res, len(dst) + 3) && mt(res, len(dst) + 3) == 2 && argof(res, len(dst) + 3) == uint64(len(val)) && len(res) == len(dst) + 3 + headlen(res, len(dst) + 3) + len(val)
-//@   ensures forall k in 0..len(val): res[len(dst) + 3 + headlen(res, len(dst) + 3) + k] == val[k]
+//@   ensures contentat(res, len(dst) + 3 + headlen(res, len(dst) + 3), val)
 //@   ensures! emitsvalue(res, dst)
 
 //@ func (Encoder).AppendIPAddr(e, dst, ip) res
@@ -110,7 +110,7 @@ package cbor
 //@   requires len(ip) < 4611686018427387904
 //@   ensures prefix(res, dst) && res[len(dst) + 0] == 217 && res[len(dst) + 1] == 1 && res[len(dst) + 2] == 4
 //@   ensures headok(res, len(dst) + 3) && mt(res, len(dst) + 3) == 2 && argof(res, len(dst) + 3) == uint64(len(ip)) && len(res) == len(dst) + 3 + headlen(res, len(dst) + 3) + len(ip)
-//@   ensures forall k in 0..len(ip): res[len(dst) + 3 + headlen(res, len(dst) + 3) + k] == ip[k]
+//@   ensures contentat(res, len(dst) + 3 + headlen(res, len(dst) + 3), ip)
 //@   ensures! emitsvalue(res, dst)
 
 //@ func (Encoder).AppendMACAddr(e, dst, ha) res
@@ -121,7 +121,7 @@ package cbor
 //@   requires len(ha) < 4611686018427387904
 //@   ensures prefix(res, dst) && res[len(dst) + 0] == 217 && res[len(dst) + 1] == 1 && res[len(dst) + 2] == 4
 //@   ensures headok(res, len(dst) + 3) && mt(res, len(dst) + 3) == 2 && argof(res, len(dst) + 3) == uint64(len(ha)) && len(res) == len(dst) + 3 + headlen(res, len(dst) + 3) + len(ha)
-//@   ensures forall k in 0..len(ha): res[len(dst) + 3 + headlen(res, len(dst) + 3) + k] == ha[k]
+//@   ensures contentat(res, len(dst) + 3 + headlen(res, len(dst) + 3), ha)
 //@   ensures! emitsvalue(res, dst)
 
 //@ func (Encoder).AppendNil(e, dst) res
@@ -130,6 +130,7 @@ package cbor
 //@   flag noovf
 //@   flag tags binary_log
 //@   ensures prefix(res, dst) && len(res) == len(dst) + 1 && res[len(dst)] == 246
+//@   ensures base(res) == base(dst) || fresh(res)
 //@   ensures! emitsvalue(res, dst)
 
 //@ func (Encoder).AppendBeginMarker(e, dst) res
@@ -138,6 +139,7 @@ package cbor
 //@   flag noovf
 //@   flag tags binary_log
 //@   ensures prefix(res, dst) && len(res) == len(dst) + 1 && res[len(dst)] == 191
+//@   ensures base(res) == base(dst) || fresh(res)
 //@   ensures! lex(res) == 0 && mode(res) == OBJ_FIRST && stk(res) == pushstk(mode(dst), stk(dst)) && prefix(res, dst) && len(res) == len(dst) + 1
 
 //@ func (Encoder).AppendEndMarker(e, dst) res
@@ -146,6 +148,7 @@ package cbor
 //@   flag noovf
 //@   flag tags binary_log
 //@   ensures prefix(res, dst) && len(res) == len(dst) + 1 && res[len(dst)] == 255
+//@   ensures base(res) == base(dst) || fresh(res)
 //@   ensures! lex(res) == 0 && mode(res) == closemode(stk(dst)) && stk(res) == popstk(stk(dst)) && prefix(res, dst) && len(res) == len(dst) + 1
 
 //@ func (Encoder).AppendArrayStart(e, dst) res
@@ -154,6 +157,7 @@ package cbor
 //@   flag noovf
 //@   flag tags binary_log
 //@   ensures prefix(res, dst) && len(res) == len(dst) + 1 && res[len(dst)] == 159
+//@   ensures base(res) == base(dst) || fresh(res)
 //@   ensures! lex(res) == 0 && mode(res) == ARR_FIRST && stk(res) == pushstk(mode(dst), stk(dst)) && prefix(res, dst) && len(res) == len(dst) + 1
 
 //@ func (Encoder).AppendArrayEnd(e, dst) res
@@ -162,6 +166,7 @@ package cbor
 //@   flag noovf
 //@   flag tags binary_log
 //@   ensures prefix(res, dst) && len(res) == len(dst) + 1 && res[len(dst)] == 255
+//@   ensures base(res) == base(dst) || fresh(res)
 //@   ensures! lex(res) == 0 && mode(res) == closemode(stk(dst)) && stk(res) == popstk(stk(dst)) && prefix(res, dst) && len(res) == len(dst) + 1
 
 //@ func (Encoder).AppendArrayDelim(e, dst) res
